@@ -27,6 +27,7 @@ import Driver.XDomH
 import Driver.RProgH
 import Driver.InterTDH
 import Driver.ArrXH
+import Driver.CrawlCH
 
 /-!
   crabdrv : line-protocol driver.  Reads cases on stdin, one per line
@@ -57,7 +58,7 @@ def dispatch (comp op : String) (args res : List Sexp) : Verdict :=
   | "pset" => handlePSet op args res
   | "wchain" => handleWChain op args res
   | "dom2" => handleDom2 op args res
-  | "crawl" => handleCrawl op args res
+  | "crawl" => handleCrawlC op args res
   | "rgn" => handleRgn op args res
   | "arr" => handleArrX op args res
   | "inter" => handleInter3 op args res
